@@ -306,4 +306,85 @@ example :
 example : changestate.memNames = ["Live", "Tombstone"] ∧ replState.memNames = ["Live", "Tombstone"]
     ∧ replIncrState.memNames = ["Live", "Tombstone"] := ⟨rfl, rfl, rfl⟩
 
+/-! ## Derived fields: what a struct keeps but its encoder does not write
+
+`equal`, the stored form and the index keys cannot see such a field (`ValueSetOauth2Session.rs_filter`,
+the bit-mask pre-filter behind `contains(Refer(rs_uuid))` / `remove(Refer(rs_uuid))`); only the
+decoder can get it wrong. `Gen.decodeCtors` is re-read from every `from_dbvs2` on every run. -/
+
+theorem gen_decodeCtors_ok : decodeCtors.all DecodeCtor.ok = true := by decide
+theorem gen_decodeCtors_cover :
+    (List.range valuesetDispatch.nMem).all (fun s => decodeCtors.any (·.struct == s)) = true := by decide
+
+/-- Every struct of the dispatch has a decoder in the table, and every decoder reached from
+`from_db_valueset_v2` either goes through the struct's canonical in-memory constructor or
+builds the struct by literals each of which assigns EVERY field of `pub struct ValueSetX { … }`
+from a source that follows the stored data on every path: never a constant, and an accumulator
+only if it is updated in the loop body itself or in every arm (stored record version) that
+yields an element. -/
+theorem decoders_rebuild_every_field :
+    (∀ s, s < valuesetDispatch.nMem → ∃ c ∈ decodeCtors, c.struct = s) ∧
+    ∀ c ∈ decodeCtors, c.via.isSome = true ∨
+      (c.literals ≠ [] ∧ ∀ l ∈ c.literals,
+        (∀ f ∈ l, f.ok = true) ∧ ∀ i, i < c.nFields → ∃ f ∈ l, f.field = i) := by
+  refine ⟨fun s hs => ?_, fun c hc => ?_⟩
+  · have h := (List.all_eq_true.mp gen_decodeCtors_cover) s (List.mem_range.mpr hs)
+    obtain ⟨c, hc, he⟩ := List.any_eq_true.mp h
+    exact ⟨c, hc, by simpa using he⟩
+  · have h := (List.all_eq_true.mp gen_decodeCtors_ok) c hc
+    unfold DecodeCtor.ok at h
+    rcases Bool.or_eq_true_iff.mp h with h | h
+    · exact Or.inl h
+    · refine Or.inr ?_
+      obtain ⟨hne, hall⟩ := Bool.and_eq_true_iff.mp h
+      refine ⟨by intro he; simp [he] at hne, fun l hl => ?_⟩
+      have hl' := (List.all_eq_true.mp hall) l hl
+      unfold literalOk at hl'
+      obtain ⟨h1, h2⟩ := Bool.and_eq_true_iff.mp hl'
+      refine ⟨fun f hf => (List.all_eq_true.mp h1) f hf, fun i hi => ?_⟩
+      have := (List.all_eq_true.mp h2) i (List.mem_range.mpr hi)
+      obtain ⟨f, hf, he⟩ := List.any_eq_true.mp this
+      exact ⟨f, hf, by simpa using he⟩
+
+/-- The table is not trivially satisfied: `ValueSetOauth2Session::from_dbvs2` builds the struct by
+a literal whose second field `rs_filter` is an accumulator updated in the arms of the `match`
+over the three stored record versions. -/
+example : ∃ c ∈ decodeCtors, c.structName = "ValueSetOauth2Session" ∧ c.via = none ∧
+    ∃ l ∈ c.literals, ∃ f ∈ l, f.kind = 1 ∧ f.uniform = 0 ∧ f.arms.length = 3 := by decide
+
+/-- For ALL stored contents: whatever the stored elements are (`(arm, bits)`: which record
+version converts the element, which bits it contributes — `rs_uuid.as_u128()`), the mask an
+accumulator field of any decoder ends up with admits every element the decoder keeps:
+`bits &&& mask = bits`, the test `contains` / `remove` make before they look at the map. A reloaded
+value set therefore never answers "not here" for a member because of its pre-filter. -/
+theorem decoded_mask_admits_members :
+    ∀ c ∈ decodeCtors, ∀ l ∈ c.literals, ∀ f ∈ l, f.kind = 1 →
+      ∀ (els : List (Nat × Nat)), ∀ e ∈ f.kept els, maskAdmits (f.accumulate els) e.2 = true := by
+  intro c hc l hl f hf hk els e he
+  have hfok : f.ok = true := by
+    rcases (decoders_rebuild_every_field.2 c hc) with hv | ⟨_, h⟩
+    · -- a decoder that goes through a canonical constructor has no literals in the table
+      have hnone : (decodeCtors.all fun c => !c.via.isSome || c.literals.isEmpty) = true := by decide
+      have := (List.all_eq_true.mp hnone) c hc
+      simp [hv] at this
+      simp [this] at hl
+    · exact (h l hl).1 f hf
+  have := f.foldl_covers (DecodeField.ok_acc hk hfok) els 0 e he
+  simp [maskAdmits, DecodeField.accumulate, this]
+
+/-- Sensitivity: drop the update from the arm of the record version the encoder writes
+(`rs_filter |= rs_uuid.as_u128()` missing in `V3`) and a stored session is no longer admitted. -/
+def rsFilterWithoutV3Update : DecodeField :=
+  { field := 1, name := "rs_filter", kind := 1, uniform := 0, remark := "sensitivity witness",
+    arms := [⟨"V1", true, true⟩, ⟨"V2", true, true⟩, ⟨"V3", true, false⟩] }
+
+example : rsFilterWithoutV3Update.ok = false ∧
+    (2, 5) ∈ rsFilterWithoutV3Update.kept [(2, 5)] ∧
+    maskAdmits (rsFilterWithoutV3Update.accumulate [(2, 5)]) 5 = false := by decide
+
+/-- Non-vacuity of the general statement: with the table as generated, a kept element exists and
+is admitted. -/
+example : ∃ c ∈ decodeCtors, ∃ l ∈ c.literals, ∃ f ∈ l, f.kind = 1 ∧
+    (2, 5) ∈ f.kept [(0, 2), (2, 5)] ∧ f.accumulate [(0, 2), (2, 5)] = 7 := by decide
+
 end Kanidm.StoreCodec
